@@ -290,6 +290,28 @@ def run(ctx):
         if len(set(created)) != 10_000 or sm.get_session_count() != 10_000:
             ctx.violation("duplicate_session_id", f"10000 create_session calls produced {len(set(created))} distinct ids, "
                           f"count={sm.get_session_count()}", {"ids": "10000 creates"})
+        # ids must not follow the state of a generator the application can reset: a handler (or a test fixture)
+        # calling random.seed(...) between two sessions must not make ids repeat
+        import random as _random
+        state = _random.getstate()
+        try:
+            reseeded = []
+            for r in range(200):
+                _random.seed(1234 if r % 2 else r // 50)
+                reseeded.append(sm.generate_session_id())
+                reseeded.append(sm.create_session({"n": r}, "2025-06-18"))
+            try:
+                import numpy  # noqa: F401 - only if the application could have it
+                numpy.random.seed(7)
+            except Exception:
+                pass
+        finally:
+            _random.setstate(state)
+        ctx.count("ids_drawn", len(reseeded))
+        if len(set(reseeded)) != len(reseeded) or set(reseeded) & set(ids):
+            ctx.violation("duplicate_session_id", f"{len(reseeded) - len(set(reseeded))} duplicates among {len(reseeded)} ids drawn "
+                          f"while the application re-seeds the random module between draws (sample {reseeded[:4]!r})",
+                          {"ids": "reseeded draws"})
         ctx.record({"ids": 100000}, shape=len(set(ids)), cls="id_uniqueness")
 
     # ---- exhaustive short sequences ----------------------------------------
